@@ -394,6 +394,14 @@ theorem lowerE_mono : ∀ (e : Expr) (c : Nat) (code : Code) (v : Value) (c' : N
     obtain ⟨ce, c1, h1, _, rfl, rfl⟩ := h
     have m1 := lowerElems_mono es _ _ _ ce c1 h1
     exact ⟨by omega, ⟨c, rfl, by omega⟩⟩
+  | .concat l r, c, code, v, c', h => by
+    simp [lowerE, Option.bind_eq_some_iff] at h
+    obtain ⟨cl, vl, c1, h1, cr, vr, c2, h2, _, rfl, rfl⟩ := h
+    have ⟨m1, b1⟩ := lowerE_mono l c cl vl c1 h1
+    have ⟨a1, _⟩ := atv_spec vl c1 b1
+    have ⟨m2, b2⟩ := lowerE_mono r _ cr vr c2 h2
+    have ⟨a2, _⟩ := atv_spec vr c2 b2
+    exact ⟨by omega, ⟨_, rfl, by omega⟩⟩
   | .fstr ps, c, code, v, c', h => by
     simp [lowerE, Option.bind_eq_some_iff] at h
     obtain ⟨cp, c1, h1, _, rfl, rfl⟩ := h
@@ -725,6 +733,11 @@ theorem lowerE_valueBound (e : Expr) (c : Nat) (code : Code) (v : Value) (c' : N
     simp [lowerE, Option.bind_eq_some_iff] at h
     obtain ⟨_, _, _, _, rfl, _⟩ := h
     obtain ⟨k', hk', hlt⟩ := hm; cases hk'; simp [Value.vars] at hk; omega
+  | concat l r =>
+    have hm := (lowerE_mono _ c code v c' h).2
+    simp [lowerE, Option.bind_eq_some_iff] at h
+    obtain ⟨_, _, _, _, _, _, _, _, _, rfl, _⟩ := h
+    obtain ⟨k', hk', hlt⟩ := hm; cases hk'; simp [Value.vars] at hk; omega
 
 /-! ### `match`: binders and patterns -/
 
@@ -940,6 +953,14 @@ theorem lowerE_moveLower (e : Expr) (c : Nat) (code : Code) (x : Var) (c' : Nat)
     simp [lowerE, Option.bind_eq_some_iff] at h
     obtain ⟨_, _, _, _, rfl, _⟩ := h
     exact ⟨c, rfl, Nat.le_refl _⟩
+  | concat l r =>
+    simp [lowerE, Option.bind_eq_some_iff] at h
+    obtain ⟨cl, vl, c1, h1, cr, vr, c2, h2, _, rfl, _⟩ := h
+    have ⟨m1, b1⟩ := lowerE_mono l c cl vl c1 h1
+    have ⟨a1, _⟩ := atv_spec vl c1 b1
+    have ⟨m2, b2⟩ := lowerE_mono r _ cr vr c2 h2
+    have ⟨a2, _⟩ := atv_spec vr c2 b2
+    exact ⟨_, rfl, by omega⟩
   | mtch s isOpt arms =>
     obtain ⟨_, ce, ve, c1, ch0, c0, ch1, c1', ch2, c2, dflt, c3, codes, h1, h2, h3, h4, h5, h6, _, hv⟩ := lowerE_mtch_inv h
     cases hv
